@@ -720,3 +720,38 @@ def L6r(tier):
         if sc.ext and sc.ext[0][0] == 50 and len(sc.ext_links) == 1 and sc.ext_links[0][0][0] == 'e' and not sc.links:
             sc.layer = 'L6r'
             yield sc
+
+
+def L8b(tier, scheds=('fwd', 'bwd')):
+    """A summary whose LATER child both starts earlier and ends later than the child listed before it (the first child is short and
+    held back - forward by an earliest start or a predecessor, backward pulled early by a successor; the second is long and on
+    another resource), with a task (or an enclosing summary) depending on / preceding that summary: the summary's roll-up and
+    everything that waits for it must follow the long child."""
+    for sched in scheds:
+        A = MON if sched == 'fwd' else MON + 28 * DAY
+        for nested in (False, True):
+            for long_est in (28, 44):
+                for held in ('min_start', 'link'):
+                    # indices: [E] S c1 c2 T [X]
+                    tasks, links = [], []
+                    par_s = None
+                    if nested:
+                        tasks.append((1, None, {}))
+                        par_s = 0
+                    si = len(tasks)
+                    tasks.append((si + 1, par_s, {}))
+                    c1 = len(tasks)
+                    a1 = {'estimate': 4, 'resource': 'A'}
+                    if held == 'min_start' and sched == 'fwd':
+                        a1['min_start'] = A + 2 * DAY
+                    tasks.append((c1 + 1, si, a1))
+                    tasks.append((c1 + 2, si, {'estimate': long_est, 'resource': 'B'}))
+                    t = len(tasks)
+                    tasks.append((t + 1, None, {'estimate': 4, 'resource': 'C'}))
+                    links.append(((0 if nested else si), t) if sched == 'fwd' else (t, (0 if nested else si)))
+                    if held == 'link' or sched == 'bwd':
+                        x = len(tasks)
+                        tasks.append((x + 1, None, {'estimate': 16, 'resource': 'D'}))
+                        links.append((x, c1) if sched == 'fwd' else (c1, x))
+                    for bal in (True, False):
+                        yield Scenario(sched, bal, A, tasks, links, layer='L8b')
